@@ -985,6 +985,31 @@ def trace_defs(k, job, trees):
     return out
 
 
+def trace_probes(max_edges):
+    """five fixed instances that make every edge kind appear in every run: SMT answers for partially
+    expanded trees (completion up to node ids), tree insertion into partially expanded hosts"""
+    S = ("start", "<start>")
+    d, e, i1, i2 = ("d", "<digit>"), ("e", "<digit>"), ("x1", "<id>"), ("x2", "<id>")
+    blk, a, v = ("b", "<block>"), ("a", "<assgn>"), ("v", "<var>")
+
+    def st(**kw):
+        return dict({"free": 10, "smt": 10, "opt": True, "unique": False, "methods": 7, "start_symbol": None,
+                     "unsat": False}, **kw)
+    cases = [
+        ("block", ("forall", blk, S, None, ("streq", False, ("var", blk), ("lit", "(p)"))), st()),
+        ("num", ("exists", d, S, None, ("streq", False, ("var", d), ("lit", "9"))), st()),
+        ("block", ("exists", i1, S, None, ("exists", i2, S, None,
+                   ("and", [("streq", False, ("var", i1), ("lit", "q")), ("streq", True, ("var", i2), ("lit", "q"))]))), st()),
+        ("assgn", ("and", [("exists", a, S, None, ("streq", False, ("var", a), ("lit", "c=c"))),
+                           ("forall", v, S, None, ("streq", False, ("var", v), ("lit", "c")))]), st(free=2, smt=2)),
+        ("num", ("exists", d, S, None, ("exists", e, S, None,
+                 ("and", [("streq", False, ("var", d), ("lit", "9")), ("sp", "before", [("var", d), ("var", e)]),
+                          ("streq", False, ("var", e), ("lit", "5"))]))), st(methods=3)),
+    ]
+    return [{"idx": f"t{k}", "gname": g, "ast": ast, "how": "direct", "settings": sett, "seed": 7 + k, "budget": 3.0,
+             "max_solutions": 8, "trace": True, "max_edges": max_edges} for k, (g, ast, sett) in enumerate(cases)]
+
+
 def trace_stage(run, jobs, results, nproc, known_by_class):
     """TRACE CONFORMANCE: a sample of the instances is run again with ISLaSolver(debug=True); every
     recorded edge (parent state -> successor state, state -> returned tree) is classified INSIDE COQ by
@@ -992,7 +1017,7 @@ def trace_stage(run, jobs, results, nproc, known_by_class):
     kind into the tree part of a rule of the abstract system (completion: refinement step given
     the constraint part; insertion: the tree guards of r_insert + C13 inserted_lossy)."""
     thorough = run.tier == "thorough"
-    n_trace = int(os.environ.get("VERIF_C01_TRACE_N", 150 if thorough else 30))
+    n_trace = int(os.environ.get("VERIF_C01_TRACE_N", 200 if thorough else 40))
     max_edges = int(os.environ.get("VERIF_C01_TRACE_EDGES", 60))
     rng = random.Random(run.seed + 1)
     # activate_unsat_support is excluded: the nested solve() of the unsat check overwrites
@@ -1000,13 +1025,21 @@ def trace_stage(run, jobs, results, nproc, known_by_class):
     # of the nested sub-problem (an artefact of the recording, not of the solver)
     elig = [ji for ji, (j, r) in enumerate(zip(jobs, results))
             if not j["settings"].get("unsat") and not r["end"].startswith(("init-crash", "worker", "hard"))]
-    with_sol = [ji for ji in elig if results[ji]["solutions"]]
-    without = [ji for ji in elig if not results[ji]["solutions"]]
+    # a third of the sample: candidates for tree insertion (tree-existential, insertion methods on);
+    # of the rest two thirds with solutions in the main pass
+    ins = [ji for ji in elig if {"exists", "exists+mexpr"} & kinds_of(jobs[ji]["ast"])
+           and jobs[ji]["settings"]["methods"] not in (0, None)]
+    rng.shuffle(ins)
+    chosen = ins[:n_trace // 3]
+    with_sol = [ji for ji in elig if results[ji]["solutions"] and ji not in chosen]
+    without = [ji for ji in elig if not results[ji]["solutions"] and ji not in chosen]
     rng.shuffle(with_sol)
     rng.shuffle(without)
-    n_with = min(len(with_sol), (2 * n_trace) // 3)
-    chosen = sorted(with_sol[:n_with] + without[:n_trace - n_with])
-    tjobs = [dict(jobs[ji], trace=True, budget=1.0, max_solutions=8, max_edges=max_edges) for ji in chosen]
+    rest = n_trace - len(chosen)
+    n_with = min(len(with_sol), (2 * rest) // 3)
+    chosen = sorted(chosen + with_sol[:n_with] + without[:rest - n_with])
+    tjobs = trace_probes(max_edges) + \
+        [dict(jobs[ji], trace=True, budget=1.5, max_solutions=8, max_edges=max_edges) for ji in chosen]
     t0 = time.time()
     tres = run_jobs(tjobs, nproc)
     info = {"instances": len(tjobs), "solver_wall_seconds": round(time.time() - t0, 1)}
@@ -1121,7 +1154,7 @@ def trace_stage(run, jobs, results, nproc, known_by_class):
                                    "neither a grammar-valid completion of the state tree nor an insertion result "
                                    "(or its root label changed)",
                            "witness": dict(job_public(job), trace_edge=e, edge_index=ei, coq_edge_kind=actual,
-                                           budget_cpu_s=1.0, max_solutions=8),
+                                           budget_cpu_s=job["budget"], max_solutions=8),
                            "parent_tree": str(tree_from_json(e["p"])), "child_tree": str(tree_from_json(e["c"])),
                            "parent_constraint": e["pc"], "child_constraint": e["cc"],
                            "theorem": "Props/C01.v C01_trace_edge_sound (edge_okb = true -> edge_spec) — check failed",
@@ -1219,9 +1252,10 @@ def run(run):
         "Coq (sol_check: shape_ok, wf_treeb, closedb, root label, satb of the original constraint) and by "
         "spec_sem.py; every prefix of the solution sequence is thereby checked. non-trivial = the instance "
         "returned at least one tree and its constraint is not satisfied by every tree the fuzzer produces "
-        "for the grammar (judged on 6 fuzzed trees by spec_sem). TRACE CONFORMANCE stream: 30 (quick) / 150 "
-        "(thorough) of these instances (2/3 with solutions, none with activate_unsat_support) are run again with "
-        "debug=True (1 s user-CPU, up to 8 solutions); up to 60 edges per instance of solver.state_tree (first the "
+        "for the grammar (judged on 6 fuzzed trees by spec_sem). TRACE CONFORMANCE stream: 40 (quick) / 200 "
+        "(thorough) of these instances (1/3 tree-existentials with insertion methods on, of the rest 2/3 with solutions, "
+        "none with activate_unsat_support) are run again with "
+        "debug=True (1.5 s user-CPU, up to 8 solutions), plus 5 fixed trace probes (3 s) that make every edge kind appear; up to 60 edges per instance of solver.state_tree (first the "
         "chains initial state -> ... -> returned tree, then recording order) are evaluated in Coq by "
         "TraceConf.edge_kind; a trace edge is non-trivial when the tree changed (completion / insertion)")
     proof_ok = run.proof_stage()
